@@ -14,7 +14,7 @@ class C11(LoopCheck):
     def configs(self, tier):
         out = super().configs(tier)
         for c in out:
-            c["routes"] = ["bytes"] if tier == "quick" else ["bytes", "dict", "file"]
+            c["routes"] = ["bytes", "live_dict"] if tier == "quick" else ["bytes", "dict", "live_dict", "file"]
         if tier == "quick":
             extra = dict(out[1])
             extra["routes"] = ["dict", "file"]
